@@ -10,7 +10,7 @@
 #include "nmtools/array/functional/ufuncs/add.hpp"
 #include "nmtools/array/functional/ufuncs/subtract.hpp"
 #include "nmtools/array/functional/ufuncs/multiply.hpp"
-#include "nmtools/array/functional/ufuncs/square.hpp"
+#include "nmtools/array/functional/ufuncs/invert.hpp"
 #include "nmtools/array/view/transpose.hpp"
 #include "nmtools/array/view/reshape.hpp"
 #include "nmtools/array/view/flip.hpp"
@@ -19,7 +19,7 @@
 #include "nmtools/array/view/ufuncs/add.hpp"
 #include "nmtools/array/view/ufuncs/subtract.hpp"
 #include "nmtools/array/view/ufuncs/multiply.hpp"
-#include "nmtools/array/view/ufuncs/square.hpp"
+#include "nmtools/array/view/ufuncs/invert.hpp"
 namespace fn = nm::functional;
 using a2_t = hyb_t<unsigned,16,2>;
 static inline auto ax2(const int* p){ return mk_arr<int,2>(p); }
@@ -47,14 +47,17 @@ UNARY(transpose, view::transpose(a, ax2(p)), fn::transpose[ax2(p)])
 UNARY(reshape, view::reshape(a, ax2(p)), fn::reshape[ax2(p)])
 UNARY(flip, view::flip(a, p[0]), fn::flip[p[0]])
 UNARY(slice, view::slice(a, sl3(p), sl2(p+3)), fn::slice[sl3(p)][sl2(p+3)])
-UNARY(square, view::square(a), fn::square)
+UNARY(invert, view::invert(a), fn::invert)   // (square/multiply make the equivalence check a multiplier-equivalence problem: no verdict in 300 s)
 UNARY(sum, view::sum(a, p[0]), fn::sum[p[0]])
-// binary functor: all at once, curried one at a time, extracted composition, fn::apply; operand addresses
-#define BINARY(NAME) KERNEL int K(k_fn_##NAME)(const size_t* shape, const unsigned* da, const unsigned* db, OUTS, int* same){ \
+// binary functor, one variant per kernel (all six in one query ran out of memory): 1 all at once, 2 curried one at a time,
+// 3 extracted composition all at once, 4 extracted composition curried, 5 fn::apply on the extracted operands;
+// same[] = extracted operands are the addresses of the leaves, in order
+#define BINARY(NAME, VAR, ...) KERNEL int K(k_fn_##NAME##_##VAR)(const size_t* shape, const unsigned* da, const unsigned* db, OUTS, int* same){ \
   a2_t a, b; if (!mk2(a,shape,da) || !mk2(b,shape,db)) return -1; \
-  auto mv = view::NAME(a, b); V(0, mv); V(1, fn::NAME(a, b)); V(2, fn::NAME(a)(b)); if (!nm::has_value(mv)) return 0; const auto& v = nm::unwrap(mv); \
+  auto mv = view::NAME(a, b); V(0, mv); if (!nm::has_value(mv)) return 0; const auto& v = nm::unwrap(mv); \
   auto f = fn::get_function_composition(v); const auto& ops = fn::get_function_operands(v); \
-  V(3, f(a, b)); V(4, f(a)(b)); V(5, fn::apply(f, ops)); \
-  same[0] = (nm::get<0>(nm::unwrap(ops)) == &a); same[1] = (nm::get<1>(nm::unwrap(ops)) == &b); return 6; }
-BINARY(add)
-BINARY(subtract)
+  V(1, __VA_ARGS__); \
+  same[0] = (nm::get<0>(nm::unwrap(ops)) == &a); same[1] = (nm::get<1>(nm::unwrap(ops)) == &b); return 2; }
+#define BINARY_ALL(NAME) BINARY(NAME, 1, fn::NAME(a, b)) BINARY(NAME, 2, fn::NAME(a)(b)) BINARY(NAME, 3, f(a, b)) BINARY(NAME, 4, f(a)(b)) BINARY(NAME, 5, fn::apply(f, ops))
+BINARY_ALL(add)
+BINARY_ALL(subtract)
